@@ -13,7 +13,9 @@ expr ::= c <k> | v <w> <pt> <0|1> | o1 <o> expr | o2 <o> expr expr | f <id> expr
          (o1 codes: 0 neg, 1 sum over members, 2 projection, 3 nonzero, >= 100 scaling; role
           operations with role r = code % 10: 10+r sum(role), 20+r value_from_person(role),
           30+r nb_persons(role), 40+r any(role), 50+r max(role), 60+r min(role), 70+r all(role);
-          for 50-79 r = 9 means no role filter; max/min of a household without holder = 0, all = 1)
+          for 50-79 r = 9 means no role filter; max/min of a household without holder = 0, all = 1;
+          80+r projection onto the members holding role r, 0 for the others; role digit 9 = no filter,
+          8 = the first top-level role including its two sub-roles (flattened roles 0 and 1))
 pt   ::= same | this_year | first_month | last_month | last_year | off:<n>:<unit> | fx:<period>
 ```
 Answer: `<res>;<res>;…|<known entries>` with res = `ok:<v,…>` | `CYCLE` | `ERR` | `FUEL`, known =
